@@ -115,7 +115,7 @@ def resample_configs(rng, shape, interpolation=0):
 
 def run(specs, shape, rng_seed, boxes=None, kps=None, channels=None, extra_targets=False,
         bbox_format='pascal_voc_3d', kp_format='xyzas', kp_kw=None, bbox_kw=None, dtype='int32', via_replay=False,
-        more_boxes=False):
+        more_boxes=False, rebuilt=False):
     """runs Compose(specs) under random.seed(rng_seed) on a labelled volume; returns the result dict"""
     img = R.labelled(shape, dtype)
     mask = R.labelled(shape, dtype)
@@ -132,6 +132,9 @@ def run(specs, shape, rng_seed, boxes=None, kps=None, channels=None, extra_targe
                    kp_format=kp_format if kps is not None else None,
                    kp_kw=kp_kw if kp_kw is not None else {'angle_in_degrees': False},
                    bbox_kw=bbox_kw, compose_kw=ckw, cls='ReplayCompose' if via_replay else 'Compose')
+    if rebuilt and "'pin': {" not in repr(specs) and not via_replay:
+        # the pipeline as a user gets it back from a saved document: it must treat the annotations exactly alike
+        pipe = A.from_dict(A.to_dict(pipe))
     data = {'image': img, 'mask': mask, 'masks': [mask.copy(), (mask * 2).astype(dtype)]}
     if extra_targets:
         data['image2'] = img.copy()
